@@ -140,7 +140,7 @@ CHECKS = {
                 "lattice block preserved, fill_cij being a parameter. The real code is compared token-by-token with the model on exact decimal "
                 "arithmetic and with the generating data. PARTIAL: strip/split, regex engine, printf/float(), pandas read_table/to_string are "
                 "outside the model (tested through the real functions).",
-        "note": COMMON_NOTE + "fill_cij is a parameter with an explicit naturality hypothesis (C08/C09 own it). Known finding: fill_cij recognises only c<i><j> column names.",
+        "note": COMMON_NOTE + "fill_cij is a parameter with an explicit naturality hypothesis (C08/C09 own it). The formatter law NumFmt.Lawful is proved for the instance the correspondence run executes (rat_parse_fmt: for all k, q, ratParse (ratFmtStr k q) = some (ratRound k q), character level, no guard), so the _rat corollaries carry no formatter hypothesis; that CPython's %.kf / float() agree with that instance is tested, not proved. Known finding: fill_cij recognises only c<i><j> column names.",
         "technique": "Lean 4 theorems by induction over volumes/q-points/modes/rows (abstract Num with parse(fmt x) = round x) + decide +kernel instances over Rat + differential run against the real writer/reader/CLI with the generating data as oracle",
     },
     "C20": {
